@@ -58,18 +58,34 @@ def gen_device(rng, maxp):
         else:
             period = rng.randint(1, maxp)
         msgs.append({"name": f"M{i}", "id": ids[i], "widths": widths, "period": -1 if period == "omit" else period, "omit": period == "omit"})
+    # the device under test ("ecu") is one of several in about half of the schemas: the messages of other devices (and some bound to no
+    # device) are declared before, between and after its own, and none of them is the ecu's to send
+    if rng.random() < 0.5:
+        free = [x for x in range(0, 2048) if x not in ids]
+        for k in range(rng.randint(1, 3)):
+            other = {"name": f"X{k}", "id": rng.choice(free), "widths": [rng.choice([8, 16, 32])],
+                     "period": rng.choice([1, 2, 5, rng.randint(1, maxp)]), "omit": False, "device": rng.choice(["bms", "dash", "bms", None])}
+            while other["id"] in ids or any(o["id"] == other["id"] for _, o in msgs[0].get("others", [])):
+                other["id"] = rng.choice(free)
+            msgs[0].setdefault("others", []).append((rng.randint(0, n), other))
     return msgs
 
 
 def device_fcp(msgs):
     out = ['version: "3"\n']
-    for m in msgs:
+    decl = [(i, m) for i, m in enumerate(msgs)]
+    for pos, other in sorted(msgs[0].get("others", []), key=lambda x: -x[0]):
+        k = next((j for j, (i, _) in enumerate(decl) if i is not None and i >= pos), len(decl))
+        decl.insert(k, (None, other))
+    for _, m in decl:
         out.append(f"struct {m['name']} {{")
         for k, w in enumerate(m["widths"]):
             out.append(f"    f{k} @{k}: u{w},")
         out.append("}")
         pline = "" if m.get("omit") else f"    period: {m['period']},\n"
-        out.append(f"impl can for {m['name']} {{\n    id: {m['id']},\n    device: \"ecu\",\n{pline}}}\n")
+        dev = m.get("device", "ecu")
+        dline = "" if dev is None else f"    device: \"{dev}\",\n"
+        out.append(f"impl can for {m['name']} {{\n    id: {m['id']},\n{dline}{pline}}}\n")
     return "\n".join(out)
 
 
@@ -124,9 +140,19 @@ def build_device(fcp_text, msgs, workdir):
     for f in files:
         with open(f["path"], "w") as fh:
             fh.write(str(f["contents"]))
-    enc = "".join(
-        f"        {{ CanFrame f = can_encode_msg_{m['name'].lower()}(&dev.{m['name'].lower()}); pr(\"E\", &f); }}\n"
-        for m in msgs)
+    hpath = os.path.join(workdir, "ecu_can.h")
+    header = open(hpath).read() if os.path.exists(hpath) else ""
+    devstruct = header[:header.find("} CanDeviceEcu;")]
+    devstruct = devstruct[devstruct.rfind("typedef struct"):]
+
+    def enc_line(m):
+        nm = m["name"].lower()
+        if f"can_encode_msg_{nm}(" in header and f" {nm};" in devstruct:
+            return f"        {{ CanFrame f = can_encode_msg_{nm}(&dev.{nm}); pr(\"E\", &f); }}\n"
+        # the device's generated code does not know this message at all: its current value has no encoding there (an empty frame stands
+        # for it), and the history shows that it is never transmitted
+        return f"        {{ CanFrame f; memset(&f, 0, sizeof f); f.id = {m['id']}; pr(\"E\", &f); }}\n"
+    enc = "".join(enc_line(m) for m in msgs)
     with open(os.path.join(workdir, "driver.c"), "w") as fh:
         fh.write(DRIVER.replace("%ENC%", enc))
     exe = os.path.join(workdir, "driver")
@@ -208,7 +234,8 @@ def run(chk):
     ndev, nhist, hlen, maxp = (40, 40, 14, 60) if quick else (400, 120, 24, 2000)
     broken = chk.proof_obligations(["Corr/C19.vo", "Sched/SchedGenProofs.vo"])
     chk.coverage["rule"] = (
-        "devices: 1-4 CAN messages (u8/u16/u32 fields), periods -1, 1 or 1..N, generated C compiled with gcc; "
+        "devices: 1-4 CAN messages (u8/u16/u32 fields), periods -1, 0, 1, 1..N or none, in half of the schemas declared between 1-3 messages of other "
+        "devices (bms, dash, none), generated C compiled with gcc; "
         "histories: true times with deltas {0,1,P-1,P,P+1,2P,random,near-wrap}, first call possibly close to 2^32; "
         "non-trivial = at least one frame sent and one call suppressed; distinct = (periods, wrapped times)")
     workroot = common.scratch_dir("verif_c19_")
@@ -271,7 +298,7 @@ def run(chk):
         for i in mism[:5]:
             bad, exp, got = impl_fails(meta[i])
             msgs, text, hist, calls = meta[i]
-            rep = {"kind": "scheduler history", "schema": text, "history_true_times": [T for T, _ in hist],
+            rep = {"kind": "scheduler history", "schema": text, "msgs": msgs, "history_true_times": [T for T, _ in hist],
                    "seeds": [s for _, s in hist], "observed_sends": got, "ideal_sends": exp,
                    "model": "Sched.sched_run", "correspondence": "Corr.C19.check_case"}
             chk.violation(rep, no_failing_input=not bad)
@@ -282,7 +309,7 @@ def run(chk):
             for m in meta:
                 bad, exp, got = impl_fails(m)
                 if bad:
-                    chk.violation({"kind": "scheduler history", "schema": m[1], "history_true_times": [T for T, _ in m[2]],
+                    chk.violation({"kind": "scheduler history", "schema": m[1], "msgs": m[0], "history_true_times": [T for T, _ in m[2]],
                                    "seeds": [s for _, s in m[2]], "observed_sends": got, "ideal_sends": exp, "broken": broken})
                     found = True
                     break
@@ -306,8 +333,8 @@ def replay(chk, rep):
     try:
         import re
         text = rep["schema"]
-        msgs = []
-        for m in re.finditer(r"impl can for (\w+) \{\s*id: (\d+),\s*device: \"ecu\",\s*period: (-?\d+)", text):
+        msgs = rep.get("msgs") or []
+        for m in ([] if msgs else re.finditer(r"impl can for (\w+) \{\s*id: (\d+),\s*device: \"ecu\",\s*period: (-?\d+)", text)):
             msgs.append({"name": m.group(1), "id": int(m.group(2)), "period": int(m.group(3))})
         exe, err = build_device(text, msgs, wd)
         if exe is None:
